@@ -1,4 +1,5 @@
 import HdModel.Props.C05
+import HdModel.Lemmas.PoolMarker
 /-! # C04 — idle connections are reused; HTTP/2 requests to an origin share one connection
 
 Step-level theorems about the pool model, valid in **every** state. -/
@@ -112,5 +113,35 @@ theorem C04_marker_owner (s : State) (r : ReqId) (k : KeyId) (mux : Bool) (t : T
   have hm' : t ∉ s.connecting := by simpa using hm
   unfold issueMissing
   cases mux <;> simp [hm']
+
+/-! ## Reachable-state theorem (from the invariant of `Lemmas/PoolMarker.lean`) -/
+
+/-- **C04 (one HTTP/2 attempt per origin at a time), over all reachable states.** While the
+    attempt-in-progress marker of an origin is in place, exactly one checkout is *the* attempt other
+    requests wait for: two checkouts that both placed a marker for the origin and whose attempt id is
+    the one stored with the marker in place are the same request. Together with `C04_dedup_issue` /
+    `C04_dedup_poll` (a request issued while the marker is in place becomes a pure waiter and never
+    dials) and `C03_only_owner_cancels` (nobody but that checkout removes the marker other than by
+    providing a shareable connection): while an HTTP/2 attempt to an origin is in flight, further HTTP/2
+    requests to it wait for it rather than dialing. -/
+theorem C04_one_attempt_per_origin (cfg : Config) (ops : List Op) (r r' : ReqId) (c c' : Checkout)
+    (h1 : (run (init cfg) ops).1.co r = some c) (h2 : (run (init cfg) ops).1.co r' = some c')
+    (m1 : c.marker = true) (m2 : c'.marker = true)
+    (o1 : c.attempt = (run (init cfg) ops).1.owner c.token) (o2 : c'.attempt = (run (init cfg) ops).1.owner c'.token)
+    (ht : c.token = c'.token) : r = r' := by
+  have h := run_minv ops (init cfg) (minv_init cfg)
+  refine h.uniq r r' c.token c'.token c.attempt ?_ ?_
+  · unfold holder; rw [h1]; simp [m1]
+  · unfold holder; rw [h2]; simp [m2, o1, o2, ht]
+
+/-- … and ids are never reused: any two checkouts that ever placed a marker (stale or not) carry
+    different attempt ids. -/
+theorem C04_attempt_ids_distinct (cfg : Config) (ops : List Op) (r r' : ReqId) (c c' : Checkout)
+    (h1 : (run (init cfg) ops).1.co r = some c) (h2 : (run (init cfg) ops).1.co r' = some c')
+    (m1 : c.marker = true) (m2 : c'.marker = true) (ha : c.attempt = c'.attempt) : r = r' := by
+  have h := run_minv ops (init cfg) (minv_init cfg)
+  refine h.uniq r r' c.token c'.token c.attempt ?_ ?_
+  · unfold holder; rw [h1]; simp [m1]
+  · unfold holder; rw [h2]; simp [m2, ha]
 
 end Hd.Pool
